@@ -325,6 +325,13 @@ func runLegacy(c *core.Ctx, s *Scenario) {
 			kexList += "," + marker
 		}
 	}
+	if !s.PeerStrict && s.WrongRole {
+		if peerIsServer {
+			kexList += ",kex-strict-c-v00@openssh.com"
+		} else {
+			kexList += ",kex-strict-s-v00@openssh.com"
+		}
+	}
 	myKI := kexInitPayload(kexList, s.Follows != 0)
 	if !lp.send(myKI) {
 		fail("write KEXINIT")
